@@ -10,7 +10,8 @@ package main
 //   U<k>                             start goroutine k and let it run to the yield point before done.Set (or to completion)
 //   B<k>                             start goroutine k in the background (it may block on a chunk mutex)
 //   DA                               wait until the preload workers are finished
-//   X:<state 0|1>:<K|A|R<n>>:<preload 0|1>   restart: state file readable?, cache kept/absent/resized, preload
+//   X:<state 0|1|2>:<K|A|R<n>>:<preload 0|1>   restart: state file readable (1), hidden (0) or replaced by a foreign one of
+//                                              the wrong length (2); cache kept/absent/resized; preload
 // Predicate (independent of the model): a ReadAt that reports success returns exactly blob[off:off+n] with
 // n = min(len, L-off); an error is allowed only if the store failed during that call (or off < 0); no panic.
 
@@ -198,7 +199,9 @@ func (x *c10Run) exec(tok, k int, q c10Req) (ok bool) {
 			x.fail(tok, "sparse/writestate-error", err.Error())
 		}
 		x.mu.Lock()
-		x.staleState = false
+		if !x.loadedStale { // an incarnation that runs on a stale state writes its wrong bits back
+			x.staleState = false
+		}
 		x.mu.Unlock()
 		x.addLog("S=D")
 		return true
@@ -311,8 +314,12 @@ func (x *c10Run) restart(tok int, t string) error {
 	_, stErr := os.Stat(x.state)
 	haveState := stErr == nil
 	hidden := x.state + ".hidden"
-	if parts[1] == "0" && haveState {
+	if (parts[1] == "0" || parts[1] == "2") && haveState {
 		os.Rename(x.state, hidden)
+	}
+	if parts[1] == "2" {
+		// a state file that is not for this index (one byte too long, every bit set): must be rejected by its length
+		os.WriteFile(x.state, bytes.Repeat([]byte{0xff}, (len(x.idx.Chunks)+7)/8+1), 0644)
 	}
 	lost := false
 	switch {
@@ -357,7 +364,10 @@ func (x *c10Run) restart(tok int, t string) error {
 		x.preloadWant = calls + strings.Count(c10Bits(b, len(x.idx.Chunks)), "1")
 	}
 	err := x.start(opt)
-	if parts[1] == "0" && haveState {
+	if parts[1] == "2" {
+		os.Remove(x.state)
+	}
+	if (parts[1] == "0" || parts[1] == "2") && haveState {
 		os.Rename(hidden, x.state)
 	}
 	if err != nil {
@@ -692,6 +702,9 @@ func c10RestartTok(rng *vh.Rand, L int) string {
 	st := 1
 	if rng.Chance(1, 4) {
 		st = 0
+		if rng.Chance(1, 3) {
+			st = 2 // foreign state file of the wrong length
+		}
 	}
 	cache := "K"
 	switch rng.Intn(6) {
